@@ -34,7 +34,11 @@ var (
 // Non-locking version used in field creation.
 func getTypeStruct(rt reflect.Type, embedded, omitEmpty bool) (st *sinfo) {
 	x := (*[2]uintptr)(unsafe.Pointer(&rt))[1]
-	if st = structMap[x]; st != nil {
+	sm := structMap
+	if omitEmpty {
+		sm = structEmptyMap
+	}
+	if st = sm[x]; st != nil {
 		return
 	}
 	return buildStruct(rt, x, embedded, omitEmpty)
@@ -107,7 +111,7 @@ func buildTagFields(rt reflect.Type, out, pretty, embedded, omitEmpty bool) (fa 
 			}
 		} else {
 			asString := false
-			omit := omitEmpty
+			omitTag := false
 			key := f.Name
 			if tag, ok := f.Tag.Lookup("json"); ok && 0 < len(tag) {
 				parts := strings.Split(tag, ",")
@@ -126,13 +130,13 @@ func buildTagFields(rt reflect.Type, out, pretty, embedded, omitEmpty bool) (fa 
 				for _, p := range parts[1:] {
 					switch p {
 					case "omitempty":
-						omit = true
+						omitTag = true
 					case "string":
 						asString = true
 					}
 				}
 			}
-			fa = append(fa, newFinfo(&f, key, omit, asString, pretty, embedded))
+			fa = append(fa, newFinfo(&f, key, omitEmpty, omitTag, asString, pretty, embedded))
 		}
 	}
 	return
@@ -160,7 +164,7 @@ func buildExactFields(rt reflect.Type, out, pretty, embedded, omitEmpty bool) (f
 				}
 			}
 		} else {
-			fa = append(fa, newFinfo(&f, f.Name, omitEmpty, false, pretty, embedded))
+			fa = append(fa, newFinfo(&f, f.Name, omitEmpty, false, false, pretty, embedded))
 		}
 	}
 	return
@@ -195,7 +199,7 @@ func buildLowFields(rt reflect.Type, out, pretty, embedded, omitEmpty bool) (fa 
 			} else {
 				name = bytes.ToLower(name)
 			}
-			fa = append(fa, newFinfo(&f, string(name), omitEmpty, false, pretty, embedded))
+			fa = append(fa, newFinfo(&f, string(name), omitEmpty, false, false, pretty, embedded))
 		}
 	}
 	return
